@@ -187,6 +187,7 @@ func (i *NetflowV9) netflowV9Worker(wQuit chan struct{}) {
 LOOP:
 	for {
 
+		vhook("Top", "netflow9", msg.body, nil)
 		netflowV9Buffer.Put(msg.body[:opts.NetflowV9UDPSize])
 		buf.Reset()
 
@@ -198,6 +199,7 @@ LOOP:
 				break LOOP
 			}
 		}
+		vhook("Deq", "netflow9", msg.body, nil)
 
 		if opts.Verbose {
 			logger.Printf("rcvd netflow v9 data from: %s, size: %d bytes",
@@ -213,6 +215,7 @@ LOOP:
 		}
 
 		atomic.AddUint64(&i.stats.DecodedCount, 1)
+		vhook("Dec", "netflow9", msg.body, nil)
 
 		if decodedMsg.DataSets != nil {
 			b, err = decodedMsg.JSONMarshal(buf)
@@ -220,6 +223,7 @@ LOOP:
 				logger.Println(err)
 				continue
 			}
+			vhook("Mar", "netflow9", msg.body, b)
 
 			select {
 			case netflowV9MQCh <- append([]byte{}, b...):
